@@ -280,7 +280,7 @@ def handle (entry : String) (j : Json) : Except String Json := do
     let ops := initializeOps ALV.Gen.OpTable.table
     let opsJ := arr (fun (o : OpMethod) => Json.mkObj [
         ("name", str o.name), ("symbol", str o.symbol), ("rev", Json.bool o.rev),
-        ("dname", str o.dname), ("arity", Json.int o.arity), ("func", str o.func)]) ops
+        ("dname", str o.dname), ("arity", Json.int o.arity), ("func", str o.func), ("repr", str o.reprStr)]) ops
     let instJ : Json := match installed with
       | none => Json.null
       | some tbl => arr (fun (kv : Name × Dunder) => Json.mkObj [
@@ -289,6 +289,22 @@ def handle (entry : String) (j : Json) : Except String Json := do
         ("dname", str sp.dname), ("builder", Json.str (builderName sp.builder)), ("func", str sp.fn),
         ("base", str sp.base), ("reflected", Json.bool sp.reflected), ("arity", Json.int sp.arity)]) specTable
     pure <| Json.mkObj [("model", Json.mkObj [("ops", opsJ), ("installed", instJ)]), ("spec", specJ)]
+
+  | "meta" =>
+    -- a class built with a user's subclass of AbstractOperatorOverloaderMeta
+    let strs (k : String) : Except String (List Name) := do
+      let l ← getList getStr (← field j k)
+      pure (l.map nm)
+    let hvL ← getList getStr (← field j "have")
+    let hv : Builder → Bool := fun b => hvL.contains (builderName b)
+    let r := installW ALV.Gen.OpTable.table hv (← strs "ns") (← strs "ops") (← strs "without")
+    let model : Json := match r with
+      | .error .valueError => Json.mkObj [("err", Json.str "ValueError")]
+      | .error .keyError => Json.mkObj [("err", Json.str "KeyError")]
+      | .error (.noBuilder d) => Json.mkObj [("err", Json.str "TypeError"), ("op", str d)]
+      | .ok tbl => Json.mkObj [("installed", arr (fun (kv : Name × Dunder) => Json.mkObj [
+          ("dname", str kv.1), ("builder", Json.str (builderName kv.2.builder)), ("func", str kv.2.func)]) tbl)]
+    pure <| Json.mkObj [("model", model)]
   | _ => throw s!"C01: unknown entry {entry}"
 
 end ALV.Driver.C01
